@@ -7,7 +7,7 @@ Domain : ASCII labels (PDS3/ISIS/ODL encoder output for generated modules, gener
          at the end, long unbroken decodable runs}; the first undecodable byte is
          also placed at offsets 8192*k + {-2..2} from the start of the file (buffer
          boundaries) x the ways of handing the data over: load(str path),
-         load(Path), loadu(file: URL), load(text stream), load(binary file),
+         load(Path), load(os.DirEntry), load(object with __fspath__), loadu(file: URL), load(text stream), load(binary file),
          load(BytesIO), loads(str) (when everything decodes), loads(bytes).
 Oracle : every way returns a module equal to loads(label text alone); with the
          counting lexer passed as lexer_fn no token beyond the END statement is
@@ -50,8 +50,18 @@ ASSUMPTIONS = [
     "only generated with an empty tail",
 ]
 
-WAYS = ["path-str", "path-Path", "file-URL", "text-stream", "binary-file",
-        "BytesIO", "loads-str", "loads-bytes"]
+WAYS = ["path-str", "path-Path", "path-DirEntry", "path-fspath-object", "file-URL",
+        "text-stream", "binary-file", "BytesIO", "loads-str", "loads-bytes"]
+
+
+class FsPath:
+    """An os.PathLike that is neither str nor pathlib.Path."""
+
+    def __init__(self, p):
+        self._p = p
+
+    def __fspath__(self):
+        return self._p
 
 
 def workdir():
@@ -149,6 +159,11 @@ def load_all_ways(label, data):
                     m = pvl.load(path, lexer_fn=lf)
                 elif way == "path-Path":
                     m = pvl.load(pathlib.Path(path), lexer_fn=lf)
+                elif way == "path-DirEntry":
+                    entry = [e for e in os.scandir(d) if e.name == "label.img"][0]
+                    m = pvl.load(entry, lexer_fn=lf)
+                elif way == "path-fspath-object":
+                    m = pvl.load(FsPath(path), lexer_fn=lf)
                 elif way == "file-URL":
                     m = pvl.loadu(pathlib.Path(path).as_uri(), lexer_fn=lf)
                 elif way == "text-stream":
